@@ -69,3 +69,9 @@ def histories(rng, tier):
 
 def nontrivial(h):
     return sum(1 for ln in h if ln.startswith('bits ')) >= 2
+
+
+def must_reject(line):
+    """C13: bit positions at or above the width must be rejected"""
+    t = line.split()
+    return t[0] in ('bits', 'sop', 'geom') and any(x.startswith('bits=') for x in t)
